@@ -390,13 +390,13 @@ class BWalk(omp.Region):
         k = e.k
         if k == "bin" and e.op in ("&&", "||"):
             self._rec(e.a[0], env, ctx, stmt)
-            c2 = dict(ctx, facts=ctx["facts"] + self.cond_facts(e.a[0], e.op == "&&", env))
+            c2 = dict(ctx, facts=ctx["facts"] + self.cond_facts(e.a[0], e.op == "&&", env, ctx["facts"]))
             self._rec(e.a[1], env, c2, stmt)
             return
         if k == "cond":
             self._rec(e.a[0], env, ctx, stmt)
-            self._rec(e.a[1], env, dict(ctx, facts=ctx["facts"] + self.cond_facts(e.a[0], True, env)), stmt)
-            self._rec(e.a[2], env, dict(ctx, facts=ctx["facts"] + self.cond_facts(e.a[0], False, env)), stmt)
+            self._rec(e.a[1], env, dict(ctx, facts=ctx["facts"] + self.cond_facts(e.a[0], True, env, ctx["facts"])), stmt)
+            self._rec(e.a[2], env, dict(ctx, facts=ctx["facts"] + self.cond_facts(e.a[0], False, env, ctx["facts"])), stmt)
             return
         if k in ("asg", "incdec", "idx", "un", "call", "cast", "bin", "member"):
             # does a short-circuit operator occur below?  if so recurse into operands, otherwise leaf-collect
@@ -1400,6 +1400,11 @@ class Ledger(object):
                 row["cls"] = "UNDECIDED"
                 row["why"] = ("a precondition row exists for this index expression but not at this statement (or more accesses use it than "
                               "were confirmed): the ledger needs review; cannot show %s" % " and ".join(side))
+            elif not self.ext.exported(self.func):
+                # an internal helper: what its caller established about the data it hands over is not visible here
+                row["cls"] = "UNDECIDED"
+                row["why"] = ("the index depends on run-time data (%s) read in an internal function; whether the caller validated that data "
+                              "cannot be seen from here: cannot show %s" % (", ".join(sorted(set(show_atom(x) for x in dd)))[:160], " and ".join(side)))
             else:
                 row["cls"] = "VIOLATION"
                 row["why"] = "the index depends on run-time data (%s) and no dominating condition or loop range bounds it: cannot show %s" % (
